@@ -395,12 +395,18 @@ pub struct PubSpec {
     pub payload_fails: bool,
 }
 
+/// Strings do not end in ASCII only: now and then a two-, three- or four-byte character closes
+/// a topic, a filter or a property value (every length prefix counts bytes, not characters).
+fn utf8_tail(w: &mut World) -> &'static str {
+    ["", "", "", "", "", "", "é", "°", "温度", "x€", "𝄞"][w.tape.choose(11) as usize]
+}
+
 fn gen_user_props(w: &mut World, max: u32) -> Vec<Prop> {
     let n = w.tape.choose(max + 1);
     (0..n)
         .map(|i| Prop {
             id: 0x26,
-            val: PVal::Pair(format!("k{}", i), "v".repeat(w.tape.choose(4) as usize)),
+            val: PVal::Pair(format!("k{}{}", i, utf8_tail(w)), format!("{}{}", "v".repeat(w.tape.choose(4) as usize), utf8_tail(w))),
         })
         .collect()
 }
@@ -415,8 +421,8 @@ fn gen_pub_props(w: &mut World) -> Vec<Prop> {
         let p = match w.tape.choose(7) {
             0 => Prop { id: 0x01, val: PVal::Byte(w.tape.choose(2) as u8) },
             1 => Prop { id: 0x02, val: PVal::U32([0u32, 1, 60, u32::MAX][w.tape.choose(4) as usize]) },
-            2 => Prop { id: 0x03, val: PVal::Str(["", "a", "application/json"][w.tape.choose(3) as usize].into()) },
-            3 => Prop { id: 0x08, val: PVal::Str(format!("reply/{}", i)) },
+            2 => Prop { id: 0x03, val: PVal::Str(["", "a", "application/json", "texte/é"][w.tape.choose(4) as usize].into()) },
+            3 => Prop { id: 0x08, val: PVal::Str(format!("reply/{}{}", i, utf8_tail(w))) },
             4 => Prop { id: 0x09, val: PVal::Bin((0..w.tape.choose(6)).map(|x| x as u8 ^ 0xA5).collect()) },
             _ => Prop { id: 0x26, val: PVal::Pair(format!("u{}", i), "x".repeat(w.tape.choose(5) as usize)) },
         };
@@ -477,6 +483,7 @@ pub fn gen_publish(w: &mut World, qos: u8) -> PubSpec {
         let pad = w.tape.choose(24) as usize;
         topic.push('/');
         topic.push_str(&"p".repeat(pad));
+        topic.push_str(utf8_tail(w));
     }
     let mut n = payload_len(w);
     let mut long_field = 0usize; // 0 none, else length of one over-long / boundary field
@@ -486,6 +493,9 @@ pub fn gen_publish(w: &mut World, qos: u8) -> PubSpec {
             1 if w.cfg.big == 2 => n = 2_097_130 + w.tape.choose(40) as usize,
             2 => long_field = 65_535,
             3 => long_field = 65_536,
+            // one packet longer than 64 KiB (and than 128 KiB): offsets into it do not fit 16 bits
+            4 => n = 65_500 + w.tape.choose(10_000) as usize,
+            _ if w.cfg.big == 2 || w.cfg.tx_len >= 200_000 && w.tape.chance(1, 2) => n = 131_000 + w.tape.choose(3_000) as usize,
             _ => {}
         }
     }
@@ -1147,7 +1157,7 @@ pub fn gen_subscribe(w: &mut World) -> SubSpec {
     let n = 1 + w.tape.choose(3);
     let filters = (0..n)
         .map(|i| SubFilter {
-            filter: format!("f{}/{}{}", tag, i, ["", "/#", "/+/x"][w.tape.choose(3) as usize]),
+            filter: format!("f{}/{}{}", tag, i, ["", "/#", "/+/x", "/é", "/+/温度"][w.tape.choose(5) as usize]),
             max_qos: w.tape.choose(3) as u8,
             no_local: w.tape.chance(1, 3),
             rap: w.tape.chance(1, 3),
@@ -1227,7 +1237,7 @@ pub struct UnsubSpec {
 pub fn gen_unsubscribe(w: &mut World) -> UnsubSpec {
     let tag = new_tag(w);
     let n = 1 + w.tape.choose(3);
-    let filters = (0..n).map(|i| format!("u{}/{}", tag, i)).collect();
+    let filters = (0..n).map(|i| format!("u{}/{}{}", tag, i, utf8_tail(w))).collect();
     let props = gen_user_props(w, 2);
     UnsubSpec { tag, filters, props }
 }
